@@ -20,7 +20,7 @@ import re
 
 from . import common as C
 
-HDR = """From Coq Require Import List Arith Bool.
+HDR = """From Coq Require Import List Arith Bool NArith.
 Import ListNotations.
 From TF Require Import Base.Hier Base.Ty Parse.Lang Parse.Tok Parse.TypeText Uri.Uri.
 Definition eres (r : res ty) : list nat :=
@@ -33,20 +33,26 @@ Definition eures (r : ures ty) : list nat :=
   match r with UOk t => 0 :: ty_enc t | UErr UKey => [1] | UErr UAssert => [2] end.
 Definition eopt (o : option (list nat)) : list nat := match o with Some u => 0 :: u | None => [1] end.
 Definition b2n (b : bool) : nat := if b then 1 else 0.
-Definition obs_ty L ns canon t : list (list nat) :=
+(* a result equal to "Ok t" for the input type t is abbreviated to [10] *)
+Definition same (t : ty) (r : list nat) : list nat :=
+  if name_eqb r (0 :: ty_enc t) then [10] else r.
+(* results are printed as binary numbers: printing unary nat literals is slow *)
+Definition nn (l : list nat) : list N := map N.of_nat l.
+Definition st (l : list N) : list nat := map N.to_nat l.
+Definition obs_ty L ns canon t : list (list N) := map nn (
   let u := uri L ns canon t in
   [ eopt u;
-    match u with Some s => eures (parse_type_uri L s) | None => [9] end;
-    match u with Some s => eures (parse_type_uri_pinned L s) | None => [9] end;
+    match u with Some s => same t (eures (parse_type_uri L s)) | None => [9] end;
+    match u with Some s => same t (eures (parse_type_uri_pinned L s)) | None => [9] end;
     text_std L t;
-    eres (parse_type L (text_std L t));
-    eres (parse_type_pinned L (text_std L t));
-    [b2n (uri_domb L t); b2n (text_domb L t)] ].
-Definition obs_str L s : list (list nat) := [eres (parse_type L s); eres (parse_type_pinned L s)].
-Definition obs_sty L s : list (list nat) :=
+    same t (eres (parse_type L (text_std L t)));
+    same t (eres (parse_type_pinned L (text_std L t)));
+    [b2n (uri_domb L t); b2n (text_domb L t)] ]).
+Definition obs_str L s : list (list N) := map nn [eres (parse_type L s); eres (parse_type_pinned L s)].
+Definition obs_sty L s : list (list N) := map nn
   [stext L s; ty_enc (expand L s); eres (parse_type L (stext L s));
    eres (parse_type_pinned L (stext L s)); [b2n (swfb L s)]].
-Definition obs_uri L s : list (list nat) := [eures (parse_type_uri L s); eures (parse_type_uri_pinned L s)].
+Definition obs_uri L s : list (list N) := map nn [eures (parse_type_uri L s); eures (parse_type_uri_pinned L s)].
 Fixpoint add_hist (L : lang) (h : list (name * item_kind)) : list nat * lang :=
   match h with
   | [] => ([], L)
@@ -56,9 +62,9 @@ Fixpoint add_hist (L : lang) (h : list (name * item_kind)) : list nat * lang :=
       | None => let (bs, Lf) := add_hist L r in (0 :: bs, Lf)
       end
   end.
-Definition obs_hist h := let (bs, Lf) := add_hist empty_lang h in (bs, all_names Lf).
+Definition obs_hist h := let (bs, Lf) := add_hist empty_lang h in (nn bs, map nn (all_names Lf)).
 Definition obs_lang L ns (xs : list opref) :=
-  ([b2n (lang_text_okb L); b2n (lang_uri_okb L); b2n (wf_nsb ns)], map (uri_op L ns) xs).
+  (nn [b2n (lang_text_okb L); b2n (lang_uri_okb L); b2n (wf_nsb ns)], map nn (map (uri_op L ns) xs)).
 """
 
 BUILTIN = {0: "Top", 1: "Bottom", 2: "Unit", 3: "Function", 4: "Product"}
@@ -78,7 +84,8 @@ def cps(s: str) -> list[int]:
 
 
 def coq_str(s: str) -> str:
-    return C.coq_list(cps(s))
+    # binary literals, converted inside Coq: parsing unary nat literals is slow
+    return "(st " + C.coq_list(cps(s)) + "%N)"
 
 
 def ty_enc(t) -> list[int]:
@@ -265,11 +272,15 @@ class Impl:
 
     # observations -------------------------------------------------------
     def uri(self, t):
+        """URI string, or None with the exception's class name"""
         from transforge.lang import NonCanonicalTypeError
         try:
             return str(self.lang.uri(self.inst(t)))
         except NonCanonicalTypeError:
-            return None
+            self.uri_error = "NonCanonicalTypeError"
+        except Exception as e:  # noqa: BLE001
+            self.uri_error = type(e).__name__
+        return None
 
     def decode(self, u: str):
         from rdflib import URIRef
@@ -482,8 +493,19 @@ def fuzz_text(rng, spec: Spec, text: str) -> str:
     vocab = ["(", ")", ",", "*", "Top", "Bottom", "Zq9"] + [t["name"] for t in spec.types] + \
         [s["name"] for s in spec.syns]
     r = rng.random()
-    if r < 0.25:
+    if r < 0.2:
         return render_tokens(rng, toks, True)            # spacing only: still valid
+    if r < 0.3:
+        # unparenthesised chain of products over compound and base operands
+        parts = []
+        for _ in range(rng.choice([2, 3, 3, 4])):
+            parts.append(tokens_of(spec.text(gen_type(rng, spec, rng.choice([0, 1, 1, 2])))))
+        chain = parts[0]
+        for q in parts[1:]:
+            chain = chain + ["*"] + q
+        if rng.random() < 0.3:
+            chain = ["("] + chain + [")"]
+        return render_tokens(rng, chain, rng.random() < 0.3)
     if r < 0.4 and len(toks) > 2 and toks[0] == "(" and toks[-1] == ")":
         return render_tokens(rng, toks[1:-1], rng.random() < 0.5)   # bare product at top level
     if r < 0.5:
@@ -712,6 +734,12 @@ def exhaustive_blocks(rng, tier):
         ts = enum_types(e2, [5, 6, 7, 4], 2)
         out.append(make_block(rng, e2, 0, 0, 0, 0, "exhaustive depth 2 over A,K/3,F/1,Product", types=ts,
             seeds=[t for t in ts if t[1]]))
+        ts = enum_types(e2, [5, 6], 3)
+        out.append(make_block(rng, e2, 0, 0, 0, 0, "exhaustive depth 3 over A,K/3", types=ts,
+            seeds=[t for t in ts if t[1]]))
+        ts = enum_types(e1, [5, 7, 8], 3)
+        out.append(make_block(rng, e1, 0, 0, 0, 0, "exhaustive depth 3 over A,F/1,G/2", types=ts,
+            seeds=[t for t in ts if t[1]]))
     else:
         ts = enum_types(e1, [5, 6, 7, 8], 3)
         out.append(make_block(rng, e1, 0, 0, 0, 0, "exhaustive depth 3 over A,B,F/1,G/2", types=ts,
@@ -790,17 +818,32 @@ def check_block(rep: C.Report, st: Stats, b: Block, vals, bi: int):
             rep.violation(f"disagree_{name}_{bi}_{st.dis}", dict(base, kind="correspondence", **payload),
                 has_input=concrete, signature=sig)
 
+    def guard(name, payload, fn, *args):
+        """an exception escaping the implementation (or the comparison) on a
+        generated case is reported with that case, never as a harness crash"""
+        try:
+            fn(*args)
+        except Exception as e:  # noqa: BLE001
+            import traceback
+            if st.limited("crash_" + name):
+                rep.violation(f"crash_{name}_{bi}_{st.n}", dict(base, kind="oracle", **payload,
+                    what=f"unexpected {type(e).__name__} while observing the implementation on this case",
+                    traceback=traceback.format_exc()[-1500:]))
+
     if not b.canon_sane:
         disagree("canon", {"what": "Language.canon of a flat language is not its seeds plus base types",
             "canon": b.canon_all})
 
     # ---- types: uri / decode / str / parse
     seen_uri: dict = {}
-    for t, mo in zip(b.types, v_ty):
+
+    def one_type(t, mo):
         m_uri, m_dec, m_dec_p, m_text, m_parse, m_parse_p, (udom, tdom) = mo
+        ok_t = [0] + ty_enc(t)
+        m_dec, m_dec_p, m_parse, m_parse_p = [ok_t if x == [10] else x for x in (m_dec, m_dec_p, m_parse, m_parse_p)]
         st.n += 1
         u = impl.uri(t)
-        i_uri = [1] if u is None else [0] + cps(u)
+        i_uri = ([1] if impl.uri_error == "NonCanonicalTypeError" else [2]) if u is None else [0] + cps(u)
         s = str(impl.inst(t))
         i_text = cps(s)
         payload = {"type": t, "type_text": spec.text(t)}
@@ -809,7 +852,8 @@ def check_block(rep: C.Report, st: Stats, b: Block, vals, bi: int):
                 impl=s, model="".join(map(chr, m_text))))
         if i_uri != m_uri:
             disagree("uri", dict(payload, what="Language.uri differs from the model",
-                impl=u, model=None if m_uri == [1] else "".join(map(chr, m_uri[1:]))))
+                impl=u if u is not None else impl.uri_error,
+                model=None if m_uri == [1] else "".join(map(chr, m_uri[1:]))))
         d = ty_depth(t)
         st.depth[d] = st.depth.get(d, 0) + 1
         for o in ty_ops(t):
@@ -870,34 +914,44 @@ def check_block(rep: C.Report, st: Stats, b: Block, vals, bi: int):
             st.samples.append({"language": spec.to_json(), "type": spec.text(t), "uri": u,
                 "decoded": i_dec, "parsed": i_parse, "model": [m_dec, m_parse]})
 
+    for t, mo in zip(b.types, v_ty):
+        guard("type", {"type": t, "type_text": spec.text(t)}, one_type, t, mo)
+
     # ---- every canonical type of the implementation (not only the evaluated sample)
+    uris: dict = {}
+
+    def one_canon(c):
+        if 3 in ty_ops(c):
+            return
+        st.dist["canon_oracle_types"] += 1
+        u = impl.uri(c)
+        if u is None:
+            if st.limited("canon_nouri"):
+                rep.violation(f"canon_nouri_{bi}_{len(uris)}", dict(base, kind="oracle", type=c,
+                    type_text=spec.text(c), error=impl.uri_error,
+                    what="Language.uri raises on a member of lang.canon"))
+            return
+        i_dec, ename = impl.decode(u)
+        if i_dec != [0] + ty_enc(c):
+            known = i_dec[0] == 0 and i_dec == [0] + ty_enc(pinned_decode(spec, c))
+            if st.limited("uri_roundtrip" + ("_known" if known else "")):
+                rep.violation(f"canon_roundtrip_{bi}_{len(uris)}", dict(base, kind="oracle", type=c,
+                    type_text=spec.text(c), uri=u, decoded=i_dec,
+                    decoded_text=(spec.text(dec_ty(i_dec)) if i_dec[0] == 0 else ename),
+                    what="parse_type_uri(uri(t)) is not t for a member of lang.canon"),
+                    signature=SIG_URI if known else None)
+        if u in uris and uris[u] != c:
+            if st.limited("uri_shared"):
+                rep.violation(f"canon_shared_{bi}_{len(uris)}", dict(base, kind="oracle", type=c, other=uris[u],
+                    uri=u, what="two different canonical types share a URI"))
+        uris[u] = c
+
     if in_uri_domain:
-        uris: dict = {}
         for c in b.canon_all + [(o, []) for o in (0, 1, 2)]:
-            if 3 in ty_ops(c):
-                continue
-            st.dist["canon_oracle_types"] += 1
-            u = impl.uri(c)
-            if u is None:
-                disagree("canon_uri", {"type": c, "what": "a canonical type has no URI"})
-                continue
-            i_dec, ename = impl.decode(u)
-            if i_dec != [0] + ty_enc(c):
-                known = i_dec[0] == 0 and i_dec == [0] + ty_enc(pinned_decode(spec, c))
-                if st.limited("uri_roundtrip" + ("_known" if known else "")):
-                    rep.violation(f"canon_roundtrip_{bi}_{len(uris)}", dict(base, kind="oracle", type=c,
-                        type_text=spec.text(c), uri=u, decoded=i_dec,
-                        decoded_text=(spec.text(dec_ty(i_dec)) if i_dec[0] == 0 else ename),
-                        what="parse_type_uri(uri(t)) is not t for a member of lang.canon"),
-                        signature=SIG_URI if known else None)
-            if u in uris and uris[u] != c:
-                if st.limited("uri_shared"):
-                    rep.violation(f"canon_shared_{bi}_{len(uris)}", dict(base, kind="oracle", type=c, other=uris[u],
-                        uri=u, what="two different canonical types share a URI"))
-            uris[u] = c
+            guard("canon", {"type": c, "type_text": spec.text(c)}, one_canon, c)
 
     # ---- alias texts
-    for s_, mo in zip(b.stys, v_sty):
+    def one_sty(s_, mo):
         m_text, m_exp, m_parse, m_parse_p, (wf,) = mo
         st.n += 1
         text = spec.stext(s_)
@@ -932,13 +986,16 @@ def check_block(rep: C.Report, st: Stats, b: Block, vals, bi: int):
                         what="type text with a synonym does not denote the synonym's definition"),
                         signature=SIG_TEXT if known else None)
 
+    for s_, mo in zip(b.stys, v_sty):
+        guard("alias", {"sty": s_, "text": spec.stext(s_)}, one_sty, s_, mo)
+
     # ---- free-form / damaged texts
-    for s, mo in zip(b.strings, v_str):
+    def one_string(s, mo):
         m_parse, m_parse_p = mo
         st.n += 1
         st.dist["fuzz_texts"] += 1
         if "_" in tokens_of(s):
-            continue
+            return
         i_parse, ename = impl.parse(s)
         if i_parse[0] == 0:
             st.dist["fuzz_texts_ok"] += 1
@@ -948,8 +1005,11 @@ def check_block(rep: C.Report, st: Stats, b: Block, vals, bi: int):
                 "impl": i_parse, "impl_exception": ename, "model": m_parse, "model_pinned": m_parse_p},
                 sig=SIG_TEXT if known else None)
 
+    for s, mo in zip(b.strings, v_str):
+        guard("fuzz", {"text": s}, one_string, s, mo)
+
     # ---- raw URIs
-    for u, mo in zip(b.uris, v_uri):
+    def one_uri(u, mo):
         m_dec, m_dec_p = mo
         st.n += 1
         st.dist["raw_uris"] += 1
@@ -962,61 +1022,74 @@ def check_block(rep: C.Report, st: Stats, b: Block, vals, bi: int):
                 "impl_exception": ename, "model": m_dec, "model_pinned": m_dec_p},
                 sig=SIG_URI if known else None)
 
+    for u, mo in zip(b.uris, v_uri):
+        guard("rawuri", {"uri": u}, one_uri, u, mo)
+
     # ---- Language.add histories
-    m_bits, m_names = v_hist
-    i_bits, i_names = run_history(b.hist)
-    want_bits = [1 if h[2] else 0 for h in b.hist]
-    st.n += len(b.hist)
-    st.dist["add_attempts"] += len(b.hist)
-    st.dist["add_rejected"] += want_bits.count(0)
-    if not (m_bits == i_bits == want_bits) or m_names != i_names:
-        concrete = i_bits != want_bits
-        disagree("add", {"history": [(h[0], h[1]) for h in b.hist], "impl": i_bits, "model": m_bits,
-            "expected": want_bits, "impl_names": i_names, "model_names": m_names,
-            "what": "Language.add accepts/rejects differently from the model (names must stay unique and unreserved)"},
-            concrete=concrete)
+    def history():
+        m_bits, m_names = v_hist
+        i_bits, i_names = run_history(b.hist)
+        want_bits = [1 if h[2] else 0 for h in b.hist]
+        st.n += len(b.hist)
+        st.dist["add_attempts"] += len(b.hist)
+        st.dist["add_rejected"] += want_bits.count(0)
+        if not (m_bits == i_bits == want_bits) or m_names != i_names:
+            concrete = i_bits != want_bits
+            disagree("add", {"history": [(h[0], h[1]) for h in b.hist], "impl": i_bits, "model": m_bits,
+                "expected": want_bits, "impl_names": i_names, "model_names": m_names,
+                "what": "Language.add accepts/rejects differently from the model "
+                        "(names must stay unique and unreserved)"}, concrete=concrete)
+
+    guard("add", {"history": [(h[0], h[1]) for h in b.hist]}, history)
 
     # ---- operator URIs
-    T = impl.T
-    objs = [impl.ops[o] for o in range(5 + len(spec.types))] + impl.operators
-    labels = [f"type operator {spec.name(o)}" for o in range(5 + len(spec.types))] + \
-        [f"operator {n}" for n in spec.ops]
-    i_ops = [str(impl.lang.uri(x)) for x in objs]
-    st.n += len(objs)
-    st.dist["operator_uris"] += len(objs)
-    if [cps(u) for u in i_ops] != op_uris_model:
-        disagree("opuri", {"impl": i_ops, "model": ["".join(map(chr, u)) for u in op_uris_model],
-            "what": "Language.uri on operators differs from the model"})
-    if in_uri_domain:
-        seen: dict = {}
-        for u, lab in zip(i_ops, labels):
-            if u in seen and st.limited("op_shared"):
-                rep.violation(f"op_shared_{bi}", dict(base, kind="oracle", uri=u, a=seen[u], b=lab,
-                    what="two different operators share a URI"))
-            seen[u] = lab
+    def operators():
+        objs = [impl.ops[o] for o in range(5 + len(spec.types))] + impl.operators
+        labels = [f"type operator {spec.name(o)}" for o in range(5 + len(spec.types))] + \
+            [f"operator {n}" for n in spec.ops]
+        i_ops = [str(impl.lang.uri(x)) for x in objs]
+        st.n += len(objs)
+        st.dist["operator_uris"] += len(objs)
+        if [cps(u) for u in i_ops] != op_uris_model:
+            disagree("opuri", {"impl": i_ops, "model": ["".join(map(chr, u)) for u in op_uris_model],
+                "what": "Language.uri on operators differs from the model"})
+        if in_uri_domain:
+            seen: dict = {}
+            for u, lab in zip(i_ops, labels):
+                if u in seen and st.limited("op_shared"):
+                    rep.violation(f"op_shared_{bi}", dict(base, kind="oracle", uri=u, a=seen[u], b=lab,
+                        what="two different operators share a URI"))
+                seen[u] = lab
+
+    guard("operators", {}, operators)
 
     # ---- queries re-encode what they decode
+    def one_query(t1, t2):
+        st.dist["query_checks"] += 1
+        st.n += 1
+        want = {impl.uri(t1), impl.uri(t2)}
+        try:
+            got = query_uris(impl, t1, t2)
+            err = None
+        except Exception as e:  # noqa: BLE001
+            got, err = set(), f"{type(e).__name__}: {e}"
+        if got != want:
+            misdecoded = [pinned_decode(spec, t) for t in (t1, t2)]
+            known = misdecoded != [t1, t2] and (
+                bool(err and err.startswith("NonCanonicalTypeError"))
+                or got == {spec.ns + "-".join(spec.prefix(t)) for t in misdecoded})
+            if st.limited("query" + ("_known" if known else "")):
+                rep.violation(f"query_{bi}_{st.n}", dict(base, kind="oracle", types=[t1, t2],
+                    types_text=[spec.text(t1), spec.text(t2)], expected=sorted(want), emitted=sorted(got),
+                    error=err, what="a query built from typed steps does not emit exactly those types' URIs "
+                                    "(query.py decodes and re-encodes every type URI)"),
+                    signature=SIG_URI if known else None)
+
     if in_uri_domain:
         cands = [t for t in b.types if t[1] and impl.uri(t) is not None and 3 not in ty_ops(t)]
         cands.sort(key=lambda t: (not inner_then_more(spec, t), repr(t)))
         for t1, t2 in list(zip(cands[0::2], cands[1::2]))[:3]:
-            st.dist["query_checks"] += 1
-            st.n += 1
-            want = {impl.uri(t1), impl.uri(t2)}
-            try:
-                got = query_uris(impl, t1, t2)
-                err = None
-            except Exception as e:  # noqa: BLE001
-                got, err = set(), f"{type(e).__name__}: {e}"
-            if got != want:
-                known = bool(err and err.startswith("NonCanonicalTypeError")) or \
-                    got == {impl.spec.ns + "-".join(spec.prefix(pinned_decode(spec, t))) for t in (t1, t2)}
-                if st.limited("query" + ("_known" if known else "")):
-                    rep.violation(f"query_{bi}_{st.n}", dict(base, kind="oracle", types=[t1, t2],
-                        types_text=[spec.text(t1), spec.text(t2)], expected=sorted(want), emitted=sorted(got),
-                        error=err, what="a query built from typed steps does not emit exactly those types' URIs "
-                                        "(query.py decodes and re-encodes every type URI)"),
-                        signature=SIG_URI if known else None)
+            guard("query", {"types": [t1, t2]}, one_query, t1, t2)
 
 
 def dec_ty(enc):
@@ -1127,7 +1200,7 @@ def main(tier: str, seed: int, replay: str | None = None) -> int:
     rng = random.Random(seed)
     blocks = corpus_blocks(rng) + exhaustive_blocks(rng, tier)
     if tier == "quick":
-        nl, nt, ns_, nf, nu, cap = 36, 22, 14, 26, 12, 120
+        nl, nt, ns_, nf, nu, cap = 56, 22, 14, 26, 12, 120
     else:
         nl, nt, ns_, nf, nu, cap = 220, 40, 25, 50, 20, 300
     for i in range(nl):
@@ -1136,8 +1209,17 @@ def main(tier: str, seed: int, replay: str | None = None) -> int:
         ar = [1, 2, 3] if i % 5 == 0 else None
         spec = gen_spec(rng, exotic=exotic, flat=flat, arities=ar)
         blocks.append(make_block(rng, spec, nt, ns_ if spec.syns else 0, nf, nu, f"random language {i}"))
+    ready = []
     for b in blocks:
-        b.prepare(rng, 10 ** 9 if b.label.startswith(("exhaustive", "corpus")) else cap)
+        try:
+            b.prepare(rng, 10 ** 9 if b.label.startswith(("exhaustive", "corpus")) else cap)
+            ready.append(b)
+        except Exception as e:  # noqa: BLE001
+            import traceback
+            rep.violation(f"build_{len(ready)}", {"kind": "oracle", "spec": b.spec.to_json(), "seeds": b.seeds,
+                "what": f"{type(e).__name__} while building the language / its canonical set",
+                "traceback": traceback.format_exc()[-1500:]})
+    blocks = ready
     texts = [b.coq(i) for i, b in enumerate(blocks)]
     outs = C.coq_eval_blocks(f"C14_{tier}", HDR, texts, nfiles=4)
     st = Stats()
@@ -1151,7 +1233,7 @@ def main(tier: str, seed: int, replay: str | None = None) -> int:
                 "biased towards compound parameters in non-final positions, alias texts, damaged/re-spaced texts, "
                 "raw and damaged URIs, an insertion history for Language.add with duplicate and reserved names, all "
                 "operator URIs; plus exhaustive enumerations over fixed small languages "
-                + ("(depth 2)" if tier == "quick" else "(depth 3)") + " and the witnesses of the refutation theorems. "
+                + ("(depth 2, and depth 3 over A,K/3 and A,F/1,G/2)" if tier == "quick" else "(depth 3)") + " and the witnesses of the refutation theorems. "
                 "non-trivial = a URI case whose type has a compound parameter followed by further parameters, a text "
                 "case with a product whose left operand is a compound type, or an alias text",
         "samples": st.samples, "input_distribution": st.dist,
